@@ -7,6 +7,7 @@ import (
 	"runtime/debug"
 	"strings"
 	"sync"
+	"syscall"
 	"testing"
 	"time"
 
@@ -23,7 +24,7 @@ import (
 func TestMain(m *testing.M) { hx.Main(m) }
 
 type spec struct {
-	Kind   string `json:"kind"` // blocked | dial | stall | sibling
+	Kind   string `json:"kind"` // blocked | dial | stall | sibling | race | acceptbusy | ... | peergone
 	Proto  string `json:"proto,omitempty"`
 	Tran   string `json:"tran,omitempty"`
 	Peer   bool   `json:"peer,omitempty"`
@@ -102,6 +103,30 @@ func TestC10(t *testing.T) {
 				}
 			}
 		}
+		// peers that vanish abruptly (reset, plain close, reset in mid-message) before the socket is closed:
+		// every real stream transport x side x way of going; protocol (and the rest) from the PRNG
+		for n := 0; n < r.Pick(2, 4); n++ {
+			for _, tr := range []string{"tcp", "ipc", "tls+tcp", "ws", "wss"} {
+				for _, side := range []string{"listener", "dialer"} {
+					for _, mode := range []string{"reset", "fin", "midmsg"} {
+						p := hx.AllProtos[rnd.Intn(len(hx.AllProtos))]
+						cases = append(cases, mon.CaseSpec{Name: "peergone/" + tr + "/" + side + "/" + mode + "/" + p, Spec: spec{Kind: "peergone", Tran: tr, Act: side, Target: mode, Proto: p, Yield: rnd.Intn(2) == 0}})
+					}
+				}
+			}
+		}
+		// transports whose pipes report an error from Close (closeerr+<inner>): the blocked scenario for every
+		// protocol, and the application closing one pipe of a connected pair
+		for _, p := range hx.AllProtos {
+			for n := 0; n < r.Pick(1, 2); n++ {
+				tr := cePrefix + ceInner[rnd.Intn(len(ceInner))]
+				cases = append(cases, mon.CaseSpec{Name: fmt.Sprintf("blocked/%s/%s/peer=true", p, tr), Spec: spec{Kind: "blocked", Proto: p, Tran: tr, Peer: true, Yield: rnd.Intn(2) == 0}})
+			}
+		}
+		for _, p := range []string{"req", "rep", "sub", "surveyor", "respondent", "pair", "bus"} {
+			tr := cePrefix + []string{"inproc", "tcp", "ipc"}[rnd.Intn(3)]
+			cases = append(cases, mon.CaseSpec{Name: "sibling/pipe/" + p + "/" + tr, Spec: spec{Kind: "sibling", Target: "pipe", Proto: p, Tran: tr}})
+		}
 	}
 	r.Run(cases, func(c *mon.Case) {
 		sp := c.Spec.(spec)
@@ -111,6 +136,7 @@ func TestC10(t *testing.T) {
 		}
 		base := mon.TakeBaseline()
 		fds := mon.SocketFDs()
+		ids0 := verifhooks.PipeIDsInUse() // (what an earlier case left behind is that case's finding)
 		switch sp.Kind {
 		case "blocked":
 			runBlocked(c, sp)
@@ -136,17 +162,25 @@ func TestC10(t *testing.T) {
 			runWriterStalled(c, sp)
 		case "loser":
 			runCloseLoser(c, sp)
+		case "peergone":
+			runPeerGone(c, sp)
 		}
-		if !c.Failed() {
-			census(c, sp, base, fds)
+		if n := ceCloses.Swap(0); n > 0 {
+			c.Count("pipe_closes_reporting_an_error", int(n))
+		}
+		if !c.Failed() && !c.Undecided() { // (a case given up as inconclusive may have left its sockets open)
+			census(c, sp, base, fds, ids0)
 		}
 		c.Sig("%s|%s|%s|%v|%s|%s", sp.Kind, sp.Proto, sp.Tran, sp.Peer, sp.Act, sp.Target)
 	})
 }
 
 // census: after all sockets of the case are closed nothing of theirs may remain.
-func census(c *mon.Case, sp spec, base mon.GoroutineBaseline, fds []string) {
+func census(c *mon.Case, sp spec, base mon.GoroutineBaseline, fds []string, ids0 []uint32) {
 	ctx := sp.Kind + "/" + sp.Tran + sp.Act
+	if sp.Kind == "peergone" {
+		ctx = sp.Kind + "/" + sp.Tran + "/" + sp.Act + "/" + sp.Target
+	}
 	r, left := base.AwaitNoLeak(mon.AwaitOpts{MaxTimer: 20 * time.Millisecond})
 	switch r.V {
 	case mon.Stuck:
@@ -163,8 +197,20 @@ func census(c *mon.Case, sp spec, base mon.GoroutineBaseline, fds []string) {
 	} else if fr.V == mon.Inconclusive {
 		c.Inconclusive("fd census did not settle")
 	}
+	had := map[uint32]bool{}
+	for _, id := range ids0 {
+		had[id] = true
+	}
 	var ids []uint32
-	ir := mon.Await(func() bool { ids = verifhooks.PipeIDsInUse(); return len(ids) == 0 }, mon.AwaitOpts{MaxTimer: 20 * time.Millisecond})
+	ir := mon.Await(func() bool {
+		ids = ids[:0]
+		for _, id := range verifhooks.PipeIDsInUse() {
+			if !had[id] {
+				ids = append(ids, id)
+			}
+		}
+		return len(ids) == 0
+	}, mon.AwaitOpts{MaxTimer: 20 * time.Millisecond})
 	if ir.V == mon.Stuck {
 		c.Violate("leak:pipe-id:"+ctx, "after every socket was closed pipe ids remain allocated: %x", ids)
 	}
@@ -306,9 +352,9 @@ func runBlocked(c *mon.Case, sp spec) {
 		var err error
 		// half the time the socket under test is the dialing side
 		if c.Rand.Intn(2) == 0 {
-			l, _, err = hx.Connect(s, peer, sp.Tran)
+			l, _, err = connect(s, peer, sp.Tran)
 		} else {
-			_, d, err = hx.Connect(peer, s, sp.Tran)
+			_, d, err = connect(peer, s, sp.Tran)
 		}
 		if err != nil {
 			c.Inconclusive("setup "+ctx+": connect over %s: %v", sp.Tran, err)
@@ -319,7 +365,7 @@ func runBlocked(c *mon.Case, sp spec) {
 		}
 	} else {
 		var err error
-		if l, err = s.NewListener(hx.ListenAddr(sp.Tran), lopts(sp.Tran)); err == nil {
+		if l, err = s.NewListener(listenAddr(sp.Tran), lopts(sp.Tran)); err == nil {
 			err = l.Listen()
 		}
 		if err != nil {
@@ -496,7 +542,7 @@ func runBlocked(c *mon.Case, sp spec) {
 }
 
 func lopts(tr string) map[string]interface{} {
-	if hx.NeedsTLS(tr) {
+	if hx.NeedsTLS(innerOf(tr)) {
 		s, _ := hx.TLSConfigs()
 		return map[string]interface{}{mangos.OptionTLSConfig: s}
 	}
@@ -505,14 +551,22 @@ func lopts(tr string) map[string]interface{} {
 
 // ---------------------------------------------------------------------------
 
-func freeTCPAddr() string {
-	l, err := net.Listen("tcp", "127.0.0.1:0")
+// refusingTCPAddr returns a loopback TCP address at which connections are refused, and keeps it that
+// way until release is called: the port stays bound, without listening, so that no other listener on
+// the machine can be given it in the meantime (a stranger there might accept and then say nothing).
+func refusingTCPAddr() (addr string, release func()) {
+	fd, err := syscall.Socket(syscall.AF_INET, syscall.SOCK_STREAM|syscall.SOCK_CLOEXEC, 0)
 	if err != nil {
 		panic(err)
 	}
-	a := l.Addr().String()
-	l.Close()
-	return a
+	if err := syscall.Bind(fd, &syscall.SockaddrInet4{Addr: [4]byte{127, 0, 0, 1}}); err != nil {
+		panic(err)
+	}
+	sa, err := syscall.Getsockname(fd)
+	if err != nil {
+		panic(err)
+	}
+	return fmt.Sprintf("127.0.0.1:%d", sa.(*syscall.SockaddrInet4).Port), func() { syscall.Close(fd) }
 }
 
 func runDial(c *mon.Case, sp spec) {
@@ -527,10 +581,13 @@ func runDial(c *mon.Case, sp spec) {
 	var vd *vt.DialerCtl
 	var addr string
 	switch sp.Act {
-	case "tcp-refuse-loop":
-		addr = "tcp://" + freeTCPAddr()
-	case "ws-refuse-loop":
-		addr = "ws://" + freeTCPAddr() + "/x"
+	case "tcp-refuse-loop", "ws-refuse-loop":
+		a, release := refusingTCPAddr()
+		defer release() // (before the caller's descriptor census)
+		addr = "tcp://" + a
+		if sp.Act == "ws-refuse-loop" {
+			addr = "ws://" + a + "/x"
+		}
 	case "ipc-refuse-loop":
 		addr = hx.ListenAddr("ipc")
 	case "inproc-refuse-loop":
@@ -786,6 +843,9 @@ func stallCensus(c *mon.Case, ctx string, base mon.GoroutineBaseline) {
 func runSibling(c *mon.Case, sp spec) {
 	p := sp.Proto
 	ctx := "sibling/" + sp.Target + "/" + p
+	if isCE(sp.Tran) {
+		ctx += "/" + sp.Tran
+	}
 	s := hx.MustSock(c, p)
 	peer := hx.MustSock(c, hx.PeerOf[p])
 	setLong(s)
@@ -803,7 +863,7 @@ func runSibling(c *mon.Case, sp spec) {
 	ws := hx.WatchPipes(s)
 	wp := hx.WatchPipes(peer)
 	// s dials, peer listens — so s has a dialer and a pipe; a listener is added on s too
-	pl, d, err := hx.Connect(peer, s, sp.Tran)
+	pl, d, err := connect(peer, s, sp.Tran)
 	if err != nil {
 		c.Inconclusive("setup "+ctx+": connect: %v", err)
 		return
@@ -812,7 +872,7 @@ func runSibling(c *mon.Case, sp spec) {
 	if !hx.WaitAttached(c, ws, 1, "peer") || !hx.WaitAttached(c, wp, 1, "peer side") {
 		return
 	}
-	l, err := s.NewListener(hx.ListenAddr(sp.Tran), lopts(sp.Tran))
+	l, err := s.NewListener(listenAddr(sp.Tran), lopts(sp.Tran))
 	if err == nil {
 		err = l.Listen()
 	}
